@@ -36,7 +36,7 @@ EXHAUSTIVE = False
 TEXTS = ['Hello', 'Ünïcødé ♯ title', '𝄞 non-BMP', 'a < b & c', 'ß — „quotes“',
          # characters that str.splitlines() / universal-newline handling treat as line ends but XML keeps
          'line\u2028sep and para\u2029sep', 'next\x85line', 'two\nlines', 
-         'trailing newline\n']
+         'trailing newline\n', 'caf\udce9.mid']
 
 
 def build_score(spec):
@@ -218,9 +218,17 @@ def check_success(spec, prior='valid'):
     if not rs.ok:
         return None
     r, before, after = attempt_write(sc, prior)
+    try:
+        want = ('<?xml version="1.0" encoding="UTF-8" standalone="no"?>\n' + rs.value).encode('utf-8')
+    except UnicodeEncodeError:
+        # (a lone surrogate, as os.fsdecode produces for undecodable file names): there is no UTF-8 form of this
+        # document, so write() cannot return with "exactly to_string() in UTF-8" on disk
+        if r.ok:
+            return F('write-returned-for-unencodable-document', inp, {'head': repr((after or b'')[:80])},
+                     'raises: the text has no UTF-8 encoding')
+        return None
     if not r.ok:
         return F('write-raised-on-valid-tree', inp, '%s: %s' % (r.etype, r.msg[:160]), 'returns', r.site)
-    want = ('<?xml version="1.0" encoding="UTF-8" standalone="no"?>\n' + rs.value).encode('utf-8')
     if after != want:
         return F('file-content-differs-from-to-string', inp,
                  {'len': [len(after or b''), len(want)], 'head': repr((after or b'')[:80]),
